@@ -37,6 +37,8 @@ SEEDS = [
     ('condition', 'not (exists j in {a, b}: (@j or q)) and (forall k in {u, @A.w}: -@k < 3)'),
     ('condition', 'exists y in @A.zs: (@y = w and @y in {v, 2})'),
     ('expression', 'not (q in {1, 2, r}) implies (s in [lo to INF]! and t in xs)'),
+    ('condition', 'gcd({a, 12, 18}) > 1 or gcd({b, 4, 6}) = c'),
+    ('condition', 'min({x, 5, 3}) + sum({y, 1, 2}) < prod({z, 2, 3}) - max({w, 7, 8})'),
     ('property', 'after t as A {a > 1}: (u {b = @A.a} or w) causes z {c = d} within 100 ms'),
     ('property', 'after (p as P or q): no (b1 {x = y} or b2 {y > 0}) within 1 s'),
     ('specification', '# id: p1\n# title: "T"\nglobally: (a1 {x = y} or a2 as B) causes (b1 or b2 {k = @B.k})'),
